@@ -17,20 +17,16 @@ Fixpoint c16_results (limit : nat) (sizes : list nat) (res : list (rres * nat)) 
       | RBlockedR => c16_results limit sizes rest next failed
       end
   end.
-(* did the connection fail before it had delivered the whole stream *)
-Fixpoint early_cut (plan : list rstep) (remaining : nat) : bool :=
-  match plan with
-  | [] => false
-  | RChunk k :: p => early_cut p (remaining - k)
-  | RStall :: p => early_cut p remaining
-  | RCut :: _ | REof :: _ | RCtxDone :: _ => Nat.ltb 0 remaining
-  end.
 Definition check (c : case) : bool :=
   match c with
   | CWrite _ _ _ _ => true
   | CRead limit sizes plan _ res _ =>
       (* when the connection was cut mid-stream only the per-receive bound and the upper bound are checked *)
       c16_results limit sizes res 0 (early_cut plan (total sizes))
+  | CAccepted conf rep _ size acc =>
+      Nat.eqb rep conf &&
+      (if Nat.eqb conf 0 then true
+       else if Nat.leb size conf then acc else if Nat.ltb (2 * conf + 1) size then negb acc else true)
   end.
 Definition mismatches := Corr.Tcp.mismatches.
 Definition violations (cs : list case) : list nat := bad_indices check cs.
